@@ -69,7 +69,7 @@ PROPS = {
     ]),
     'C17': dict(units=['cls'], level='proof'),
     'C18': dict(units=['ctl'], level='proof',
-                not_covered=['handle_method (method-name match, parameter extraction, -32601/-32602 mapping): stub', 'dispatch_async / socket entry point equivalence', 'concurrent setters and snapshot readers (atomics sequentialised)', 'JSON serialisation (Response::to_json)']),
+                not_covered=['control_socket.rs line framing (tokio::select! loop)', 'concurrent setters and snapshot readers (atomics sequentialised)', 'serde_json itself (parsing, typed accessors, Response::to_json)', 'subscription handlers']),
     'C19': dict(units=['reload', 'events'], level='proof'),
     'C15': dict(
         kani=[K('reg_packets_layout', 'C15.kani.reg1_reg2_are_258_bytes_type_plus_id'),
@@ -77,7 +77,7 @@ PROPS = {
               K('keepalive_ext_roundtrip', 'C15.kani.extended_keepalive_decodes_back', note='8-iteration loop fully unwound'),
               K('ack_packet_roundtrip_le4', 'C15.kani.srtla_ack_decodes_back', kind='bounded', bound='1..=4 acknowledged numbers'),
               K('decoders_total_and_layouts_le24', 'C15.kani.decoders_total_and_fixed_offset_layouts_on_short_frames', kind='bounded', bound='every byte string of length 0..=24 (structure-independent cross-check on the compiled code)')] + STUB_HARNESSES,
-        units=['proto'],
+        units=['proto', 'reg'],
         level='proof',
         trusted=['u16/u32/i32::from_be_bytes specified as shift-or of the bytes (stub, Kani-validated)'],
         not_covered=[],
